@@ -4,6 +4,8 @@ around hal.waitForNotifierAlarm advances the simulated clock to the armed alarm 
 usage: nd_driver.py --out FILE --seed S --n N [--first-id K]   |   nd_driver.py --out FILE --scripts FILE
 """
 import argparse
+import time
+from fractions import Fraction
 import json
 import os
 import random
@@ -39,6 +41,7 @@ BASES = [0, 0, 0, 2 ** 31 - 30000, 2 ** 32 - 50000, 2 ** 32 + 7000000]
 
 
 PREV = [None]
+SLEEPS = [False]      # wait() on a freed NotifierDelay was seen to take wall time
 
 
 def next_slot():
@@ -63,6 +66,7 @@ def run_trace(tid, events):
     n0 = hs.getNumNotifiers()
     s0 = next_slot()
     d = None
+    freed = False
     nwait = 0
     steps = []
     for ev in events:
@@ -72,8 +76,12 @@ def run_trace(tid, events):
         k = ev["e"]
         try:
             if k == "new":
-                # (whole seconds are written as ints)
-                d = NotifierDelay(ev["p"] // 1000000 if ev["p"] % 1000000 == 0 and ev["p"] > 0 else ev["p"] / 1e6)
+                freed = False
+                # (whole seconds are written as ints; any real number will do: every seventh history uses a Fraction)
+                if tid % 7 == 3 and ev["p"] > 1000:      # (exactly 1 ms as a Fraction is below the float 0.001 of the guard)
+                    d = NotifierDelay(Fraction(ev["p"], 1000000))
+                else:
+                    d = NotifierDelay(ev["p"] // 1000000 if ev["p"] % 1000000 == 0 and ev["p"] > 0 else ev["p"] / 1e6)
                 if abs(d.delay_period - ev["p"]) > 1:
                     err = True
             elif k == "body":
@@ -84,10 +92,28 @@ def run_trace(tid, events):
                     import gc
                     PREV[0] = None
                     gc.collect()
-                d.wait()
+                if freed and d.delay_period >= 20000:
+                    # "after free() ... wait() returns immediately": in wall time too (the best of three calls, so that a
+                    # hiccup of the machine is not mistaken for a sleep)
+                    if SLEEPS[0]:
+                        err = True          # (established earlier in this process: do not sit through it again)
+                    else:
+                        best = 1e9
+                        for _ in range(3):
+                            w0 = time.monotonic()
+                            d.wait()
+                            best = min(best, time.monotonic() - w0)
+                            if best <= 0.5 * d.delay_period / 1e6:
+                                break
+                        if best > 0.5 * d.delay_period / 1e6:
+                            err = True
+                            SLEEPS[0] = True
+                else:
+                    d.wait()
             elif k == "enter":
                 d.__enter__()
             elif k == "free":
+                freed = True
                 if ev.get("how") == "with":
                     d.__exit__(None, None, None)
                 elif ev.get("how") == "with_exc":
